@@ -148,6 +148,10 @@ theorem C10_scan_file_gaps (is : List RInstC) (hok : ∀ i ∈ is, i.Ok) (g : Ga
   rw [this, hse]
   simp [List.map_map, Function.comp_def]
 
+/-- the tie for keywords of any length: `getDelimitedKeyword` accumulates into an unbounded `std::string` (regenerated), as `kwLoop`
+    does — `C10_scan_file` / `C10_scan_file_gaps` quantify over keywords of every length; a fixed buffer (seed C10-d2) flips this -/
+theorem C10_keyword_unbounded : kwUnbounded = true := rfl
+
 /-- non-vacuity: `/*l #9*/ #12 /*c (*/ = /*e ;*/ ND` tab `/*k*/ ('a',#3) /*s )*/ ;` is a well-formed written instance -/
 example :
     let i : RInstC := ⟨[' '], some (['l', ' ', '#', '9'], [' ']), [], ['1', '2'], [([' '], ['c', ' ', '('])], [' '],
